@@ -15,6 +15,11 @@ pub(crate) struct Strand<I: Interner> {
     pub(crate) selected_subgoal: Option<SelectedSubgoal>,
 
     pub(crate) last_pursued_time: TimeStamp,
+
+    /// True for a "refinement" strand (see `create_refinement_strand`): its
+    /// subgoals are delayed subgoals that are now being evaluated, and its
+    /// `delayed_subgoals` are the goals already taken into account that way.
+    pub(crate) refinement: bool,
 }
 
 pub(crate) type CanonicalStrand<I> = Canonical<Strand<I>>;
@@ -45,6 +50,7 @@ impl<I: Interner> TypeFoldable<I> for Strand<I> {
             ex_clause: self.ex_clause.try_fold_with(folder, outer_binder)?,
             last_pursued_time: self.last_pursued_time,
             selected_subgoal: self.selected_subgoal,
+            refinement: self.refinement,
         })
     }
 }
